@@ -1,0 +1,117 @@
+//go:build verif
+
+package k8s
+
+// Verification hooks for property C13 (add-only, compiled only with -tags verif).
+//
+// VerifNewProvider builds a real Provider through NewProvider (so the PodByIP index function is
+// registered exactly as in production) over a fake clientset, but never starts the informer:
+// the harness plays the informer's part itself, step by step, by changing the indexer and then
+// calling the cache invalidation handler the way client-go's processDeltas does.
+
+import (
+	"regexp"
+
+	"github.com/sirupsen/logrus"
+	"k8s.io/client-go/informers"
+	mainFake "k8s.io/client-go/kubernetes/fake"
+	"k8s.io/client-go/tools/cache"
+
+	"github.com/atlassian/gostatsd"
+)
+
+// verifIdleFactory replaces the provider's informer factory so that Provider.Run does not start
+// a live list/watch (which would fight with the harness over the indexer's content).  Only
+// Start is ever called on the factory by this package.
+type verifIdleFactory struct {
+	informers.SharedInformerFactory
+}
+
+func (verifIdleFactory) Start(<-chan struct{}) {}
+
+// verifInformer lets the harness observe / interleave with index reads of the lookup path.
+// Every method other than GetIndexer is the un-started informer's own.
+type verifInformer struct {
+	cache.SharedIndexInformer
+	indexer cache.Indexer
+}
+
+func (i verifInformer) GetIndexer() cache.Indexer { return i.indexer }
+
+// verifIndexer wraps the informer's indexer; AfterByIndex (if set) runs after the index has been
+// read and before the result is returned to the caller.
+type verifIndexer struct {
+	cache.Indexer
+	afterByIndex *func()
+}
+
+func (x verifIndexer) ByIndex(indexName, indexedValue string) ([]interface{}, error) {
+	objs, err := x.Indexer.ByIndex(indexName, indexedValue)
+	if f := *x.afterByIndex; f != nil {
+		f()
+	}
+	return objs, err
+}
+
+// VerifProvider is a Provider whose informer is driven by hand.
+type VerifProvider struct {
+	P *Provider
+	// AfterByIndex, when non-nil, is called inside a lookup between the read of the pod index and
+	// the write of the memoised instance (used to replay one schedule of a concurrent event).
+	AfterByIndex func()
+}
+
+// VerifNewProvider returns a provider with the given (possibly nil) regexes and an informer that
+// is never started.
+func VerifNewProvider(logger logrus.FieldLogger, annotationRegex, labelRegex *regexp.Regexp) (*VerifProvider, error) {
+	p, err := NewProvider(logger, mainFake.NewSimpleClientset(),
+		PodInformerOptions{ResyncPeriod: 0, WatchCluster: true}, annotationRegex, labelRegex)
+	if err != nil {
+		return nil, err
+	}
+	vp := &VerifProvider{P: p}
+	p.factory = verifIdleFactory{}
+	p.podsInf = verifInformer{
+		SharedIndexInformer: p.podsInf,
+		indexer:             verifIndexer{Indexer: p.podsInf.GetIndexer(), afterByIndex: &vp.AfterByIndex},
+	}
+	return vp, nil
+}
+
+// VerifIndexer is the informer's store (with the PodByIP index registered by NewProvider).
+func (vp *VerifProvider) VerifIndexer() cache.Indexer {
+	return vp.P.podsInf.GetIndexer().(verifIndexer).Indexer
+}
+
+// The invalidation handler that NewProvider registers with the informer.
+func (vp *VerifProvider) VerifOnAdd(obj interface{}) { cacheInvalidationHandler{p: vp.P}.OnAdd(obj) }
+
+func (vp *VerifProvider) VerifOnUpdate(oldObj, newObj interface{}) {
+	cacheInvalidationHandler{p: vp.P}.OnUpdate(oldObj, newObj)
+}
+
+func (vp *VerifProvider) VerifOnDelete(obj interface{}) {
+	cacheInvalidationHandler{p: vp.P}.OnDelete(obj)
+}
+
+// VerifMemoKeys returns the IPs with a non-nil memoised instance (diagnostics only).
+func (vp *VerifProvider) VerifMemoKeys() []gostatsd.Source {
+	vp.P.rw.RLock()
+	defer vp.P.rw.RUnlock()
+	var out []gostatsd.Source
+	for ip, inst := range vp.P.cache {
+		if inst != nil {
+			out = append(out, ip)
+		}
+	}
+	return out
+}
+
+// VerifGetTagNameFromRegex exposes the tag-name rule on its own.
+func VerifGetTagNameFromRegex(re *regexp.Regexp, s string) string { return getTagNameFromRegex(re, s) }
+
+// VerifIsIndexablePod exposes the index predicate on its own.
+func VerifIsIndexablePod(obj interface{}) bool {
+	keys, _ := podByIpIndexFunc(obj)
+	return len(keys) > 0
+}
